@@ -14,6 +14,8 @@ from pycoin.encoding.hash import double_sha256
 from pycoin.symbols.btc import network as BTC
 from pycoin.symbols.ltc import network as LTC
 
+from gen import subproc
+
 PROPERTY = "C14"
 ASSUMPTIONS = ["oracles/refmerkle.py (merkle root, Core's CPartialMerkleTree builder/verifier, struct serialisers; calibrated on the "
                "genesis block, blocks 71043/71038, the developer-reference merkleblock example, builder-verifier identity <= 64 leaves)",
@@ -526,4 +528,10 @@ SUBCHECKS = [
     SubCheck("merkleblock_generated", o_merkleblock, strategy=s_merkleblock, budget=(1500, 100000), nontrivial=nt_merkleblock,
              rule="n <= 300, match sets uniform / single / sparse / runs / dense / none / all, random headers, BTC and LTC; same checks, "
                   "hash corruptions at every position when the proof has <= 24 hashes, else at first, last and 10 drawn positions"),
+    SubCheck("merkleblock_python_O", subproc.optimized_variant("checks.c14_blocks", "o_merkleblock"), strategy=s_merkleblock,
+             budget=(300, 20000), nontrivial=nt_merkleblock,
+             rule="the merkleblock_generated cases (honest proofs accepted, every corruption rejected) evaluated in a child interpreter "
+                  "started with PYTHONOPTIMIZE=1 (python -O: assert statements compiled away; asserted by the child)"),
+    SubCheck("blocks_python_O", subproc.optimized_variant("checks.c14_blocks", "o_block"), strategy=s_block, budget=(160, 8000),
+             nontrivial=nt_block, rule="the blocks cases (round trip, altered transactions rejected) in the same python -O child"),
 ]
